@@ -661,3 +661,113 @@ Proof.
   rewrite E. replace (length out + 1)%nat with (length (out ++ [0%N])) by (rewrite app_length; reflexivity).
   rewrite firstn_app, Nat.sub_diag, firstn_all. cbn [firstn]. apply app_nil_r.
 Qed.
+
+(* =========================================================================== *)
+(* 7. dissecting any text = cutting at '&', then at the first '='                  *)
+(* =========================================================================== *)
+Local Open Scope N_scope.
+
+Section Splitting.
+Variables (pts : bool) (bc : break_conv).
+Let un (t : text) : text := cstr (unescape pts bc t).
+
+(* the scan inside one piece (no '&') *)
+Fixpoint consume (p : text) (kr : text) (vr : option text) : text * option text :=
+  match p with
+  | [] => (kr, vr)
+  | c :: r =>
+    if c =? 61 then
+      match vr with None => consume r kr (Some []) | Some v => consume r kr (Some (c :: v)) end
+    else
+      match vr with None => consume r (c :: kr) None | Some v => consume r kr (Some (c :: v)) end
+  end.
+
+Definition state_item (s : text * option text) : list qitem :=
+  match s with
+  | ([], None) => []
+  | (kr, vr) => [(un (rev kr), option_map (fun v => un (rev v)) vr)]
+  end.
+
+Lemma consume_some : forall p kr v, consume p kr (Some v) = (kr, Some (rev p ++ v)).
+Proof.
+  induction p as [|c p IH]; intros kr v; [reflexivity|]. cbn [consume rev].
+  rewrite <- app_assoc. destruct (c =? 61); apply IH.
+Qed.
+
+Lemma consume_none : forall p kr,
+  consume p kr None = let '(k, v) := cut_first 61 p in (rev k ++ kr, option_map (@rev N) v).
+Proof.
+  induction p as [|c p IH]; intros kr; [reflexivity|]. cbn [consume cut_first].
+  destruct (c =? 61).
+  - rewrite consume_some. rewrite app_nil_r. reflexivity.
+  - rewrite IH. destruct (cut_first 61 p) as [k v]. cbn [rev]. rewrite <- app_assoc. reflexivity.
+Qed.
+
+Lemma cut_first_nil p : cut_first 61 p = ([], None) -> p = [].
+Proof.
+  destruct p as [|c p]; [reflexivity|]. cbn [cut_first]. destruct (c =? 61); [discriminate|].
+  destruct (cut_first 61 p). discriminate.
+Qed.
+
+Lemma piece_item_state p : piece_item un p = state_item (consume p [] None).
+Proof.
+  rewrite consume_none. unfold piece_item. destruct p as [|c p]; [reflexivity|].
+  destruct (cut_first 61 (c :: p)) as [k v] eqn:E. rewrite app_nil_r. unfold state_item.
+  destruct (rev k) eqn:Ek.
+  - apply (f_equal (@rev N)) in Ek. rewrite rev_involutive in Ek. cbn [rev] in Ek. subst k.
+    destruct v as [v|]; cbn [option_map].
+    + rewrite rev_involutive. reflexivity.
+    + apply cut_first_nil in E. discriminate.
+  - rewrite <- Ek. rewrite rev_involutive. f_equal. f_equal.
+    destruct v as [v|]; cbn [option_map]; [rewrite rev_involutive|]; reflexivity.
+Qed.
+
+Lemma split_at_nonnil l : split_at 38 l <> [].
+Proof. destruct l as [|c r]; [discriminate|]. cbn [split_at]. destruct (c =? 38); [discriminate|]. destruct (split_at 38 r); discriminate. Qed.
+
+Lemma append_item_state kr vr acc cnt :
+  append_item pts bc false kr vr acc cnt
+  = (rev (state_item (kr, vr)) ++ acc, (cnt + Z.of_nat (length (state_item (kr, vr))))%Z).
+Proof.
+  unfold append_item, state_item. destruct kr; destruct vr; cbn [rev app length]; f_equal; lia.
+Qed.
+
+Lemma walk_split : forall l kfn kr vr acc cnt,
+  (kfn = true -> l = [] /\ kr = [] /\ vr = None) ->
+  dissect_walk pts bc l kfn kr vr acc cnt =
+  match split_at 38 l with
+  | [] => (rev acc, cnt)
+  | p :: ps =>
+    let its := state_item (consume p kr vr) ++ flat_map (piece_item un) ps in
+    (rev acc ++ its, (cnt + Z.of_nat (length its))%Z)
+  end.
+Proof.
+  induction l as [|c r IH]; intros kfn kr vr acc cnt Hk.
+  { cbn [dissect_walk split_at consume flat_map]. cbv zeta. rewrite app_nil_r.
+    destruct kfn.
+    - destruct (Hk eq_refl) as (_ & -> & ->). cbn. rewrite app_nil_r. f_equal. lia.
+    - rewrite append_item_state. rewrite rev_app_distr, rev_involutive. reflexivity. }
+  assert (kfn = false) as -> by (destruct kfn; [destruct (Hk eq_refl) as [? _]; discriminate|reflexivity]).
+  cbn [dissect_walk split_at].
+  destruct (c =? 38) eqn:E38.
+  - rewrite append_item_state. cbn [consume]. rewrite IH.
+    + pose proof (split_at_nonnil r) as Hn. destruct (split_at 38 r) as [|p ps]; [congruence|].
+      cbn [flat_map]. cbv zeta. rewrite piece_item_state.
+      rewrite rev_app_distr, rev_involutive. rewrite <- !app_assoc. rewrite !app_length.
+      f_equal. rewrite !Nat2Z.inj_add. rewrite !Z.add_assoc. reflexivity.
+    + intros Hm. destruct r; [auto|discriminate].
+  - pose proof (split_at_nonnil r) as Hn.
+    destruct (split_at 38 r) as [|p ps]; [congruence|].
+    cbn [consume].
+    destruct (c =? 61); destruct vr as [v|]; rewrite IH by discriminate; reflexivity.
+Qed.
+
+Theorem dissect_splits l :
+  dissect pts bc l
+  = DOk (dissect_with un l) (Z.of_nat (length (dissect_with un l))).
+Proof.
+  unfold dissect, dissect_with. rewrite walk_split by discriminate.
+  pose proof (split_at_nonnil l) as Hn. destruct (split_at 38 l) as [|p ps]; [congruence|].
+  cbv zeta. cbn [flat_map rev app]. rewrite piece_item_state. reflexivity.
+Qed.
+End Splitting.
